@@ -375,10 +375,16 @@ class APIClient:
     async def disconnect(self, force: bool = False) -> None:
         if self._connection is None:
             return
+        connection = self._connection
         if force:
-            self._connection.force_disconnect()
+            connection.force_disconnect()
         else:
-            await self._connection.disconnect()
+            await connection.disconnect()
+        if self._connection is connection:
+            # The stop callback only clears the connection for sessions
+            # that were established; a connection that was closed before
+            # that must not block the next connect attempt
+            self._connection = None
 
     def _get_connection(self) -> APIConnection:
         connection = self._connection
